@@ -17,7 +17,7 @@ EXTENDS ISDrivers, Json, IOUtils, SequencesExt, FiniteSetsExt
 CONSTANTS NAtoms,      \* atoms 0..NAtoms-1
           Keys,        \* dict keys
           SiteOps,     \* operations a site may be declared with
-          ChildOps,    \* operations of dict children ("deq","dle","dge")
+          ChildOps,    \* operations of dict children ("deq","dle","dge"; "dget" = the child is only accessed)
           WrongOps,    \* operations used as a second, conflicting operation
           ChgOK,       \* programs may re-evaluate a call with a changed hand-written argument
           HostileOK,   \* programs may raise exceptions of their own and compare with values of incomparable types
@@ -35,11 +35,12 @@ SrcsFor(o) == IF o \in ScalarOps \cup {"none"} THEN {None} \cup {Some(<<l>>) : l
               ELSE IF o = "in" THEN {None} \cup {Some(e) : e \in {s \in SeqUpTo(Lit0, MaxSrcLen) : NoDupBy(s, FV)}}
               ELSE {None} \cup {Some(e) : e \in {s \in SeqUpTo(LitK, MaxSrcLen) : NoDupBy(s, FK)}}
 
-KindOfStmtOp(o) == IF o \in {"deq", "dle", "dge"} THEN "dict" ELSE o
+KindOfStmtOp(o) == IF o \in {"deq", "dle", "dge", "dget"} THEN "dict" ELSE o
 \* statements a site declared with operation o can take part in
 OwnStmts(i, o) ==
   IF o = "none" THEN {[site |-> i, assert |-> FALSE, op |-> "none", k |-> 0, x |-> 0]}
-  ELSE IF o = "dict" THEN [site : {i}, assert : BOOLEAN, op : ChildOps, k : Keys, x : Atoms]
+  ELSE IF o = "dict" THEN [site : {i}, assert : BOOLEAN, op : ChildOps \ {"dget"}, k : Keys, x : Atoms]
+                          \cup (IF "dget" \in ChildOps THEN [site : {i}, assert : {FALSE}, op : {"dget"}, k : Keys, x : {0}] ELSE {})
   ELSE [site : {i}, assert : BOOLEAN, op : {o}, k : {0}, x : Atoms]
 WrongStmts(i, o) == {[site |-> i, assert |-> FALSE, op |-> w, k |-> 0, x |-> 0] : w \in {w \in WrongOps : KindOfStmtOp(w) # o}}
 ChgStmts(i) == IF ChgOK THEN {[site |-> i, assert |-> FALSE, op |-> "chg", k |-> 0, x |-> 0]} ELSE {}
@@ -96,6 +97,7 @@ HoldsStmt(s, src) ==
   CASE s.op \in Special -> TRUE
     [] s.op \in ScalarOps -> HoldsScalar(s.op, src.e[1].v, s.x)
     [] s.op = "in" -> s.x \in Rng(ValsOf(src.e))
+    [] s.op = "dget" -> TRUE                  \* an access alone asserts nothing
     [] OTHER -> HasKey(src.e, s.k) /\ HoldsScalar(CASE s.op = "deq" -> "eq" [] s.op = "dle" -> "le" [] s.op = "dge" -> "ge",
                                                  src.e[IdxOfKey(src.e, s.k)].v, s.x)
 \* executed statements of run R: pairs <<t, j>>
@@ -116,11 +118,11 @@ ExpectTE(R, p) ==
       Q == {q \in Exec(R) : StmtAt(q).site = s.site /\ StmtAt(q).op \notin {"none", "chg", "raise"}}
       Kind(o) == CASE o = "lebot" -> "le" [] o = "gebot" -> "ge" [] o = "eqbad" -> "eq" [] o = "inbad" -> "in" [] OTHER -> KindOfStmtOp(o)
       f == StmtAt(FirstOf(Q))
-      QK == {q \in Q : KindOfStmtOp(StmtAt(q).op) = "dict" /\ StmtAt(q).k = s.k}
+      QK == {q \in Q : KindOfStmtOp(StmtAt(q).op) = "dict" /\ StmtAt(q).op # "dget" /\ StmtAt(q).k = s.k}
   IN /\ s.op \notin {"none", "chg", "raise"}
      /\ \/ s.op \in {"lebot", "gebot"}
         \/ Kind(s.op) # Kind(f.op)
-        \/ KindOfStmtOp(s.op) = "dict" /\ s.op # StmtAt(FirstOf(QK)).op
+        \/ KindOfStmtOp(s.op) = "dict" /\ s.op # "dget" /\ s.op # StmtAt(FirstOf(QK)).op
 
 (* C07: a wrong or missing snapshot never yields a green test; a test whose snapshots all hold is
    never red - except through a site that the program compares with different values (one == snapshot
@@ -143,7 +145,7 @@ C06 == LET R == Run(srcs, prog, {}) IN
             ELSE IF s.op = "chg"       \* C14: a changed argument is a usage error (only hand-written parts can change)
                  THEN ResAt(R, p) = (IF srcs[s.site].def /\ \E j \in DOMAIN srcs[s.site].e : ~srcs[s.site].e[j].canon
                                      THEN "UE" ELSE "-")
-            ELSE (s.op # "none" /\ srcs[s.site].def /\ (KindOfStmtOp(s.op) # "dict" \/ HasKey(srcs[s.site].e, s.k)))
+            ELSE (s.op \notin {"none", "dget"} /\ srcs[s.site].def /\ (KindOfStmtOp(s.op) # "dict" \/ HasKey(srcs[s.site].e, s.k)))
                     => ResAt(R, p) = B2S(HoldsStmt(s, srcs[s.site]))
 (* C05 *)
 C05fixiff == \A F \in Fs : LET R == Run(srcs, prog, F) IN
@@ -162,6 +164,9 @@ C05create == LET R == Run(srcs, prog, {"create"}) IN
 C05update == LET R == Run(srcs, prog, {"update"}) IN
    \A i \in DOMAIN srcs : ValsOf(R.srcs[i].e) = ValsOf(srcs[i].e) /\ KeysOf(R.srcs[i].e) = KeysOf(srcs[i].e)
                           /\ R.srcs[i].def = srcs[i].def
+\* the key k of dict site i was accessed by an executed statement (compared or only read)
+Accessed(R, i, k) == \E p \in Exec(R) : /\ StmtAt(p).site = i /\ KindOfStmtOp(StmtAt(p).op) = "dict" /\ StmtAt(p).k = k
+                                         /\ (ResAt(R, p) \notin {"TE", "UE", "EX"} \/ R.sts[i].kind = "dict")
 \* trim removes only slack and gives the tightest value
 Extreme(o, S) == CHOOSE m \in S : \A y \in S : Better(o, m, y)
 C05trim == \A F \in {G \in Fs : "trim" \in G} : LET R == Run(srcs, prog, F) IN
@@ -172,7 +177,7 @@ C05trim == \A F \in {G \in Fs : "trim" \in G} : LET R == Run(srcs, prog, F) IN
         [] ops[i] = "in" ->
               \A j \in DOMAIN R.srcs[i].e : R.srcs[i].e[j].v \in obs
         [] ops[i] = "dict" ->
-              /\ \A j \in DOMAIN R.srcs[i].e : \E p \in OnSite(R, i) : StmtAt(p).k = R.srcs[i].e[j].k
+              /\ \A j \in DOMAIN R.srcs[i].e : Accessed(R, i, R.srcs[i].e[j].k)
               /\ \A j \in DOMAIN R.srcs[i].e :
                     LET e == R.srcs[i].e[j]
                         c == R.sts[i].new[IdxOfKey(R.sts[i].new, e.k)]
@@ -182,7 +187,9 @@ C05trim == \A F \in {G \in Fs : "trim" \in G} : LET R == Run(srcs, prog, F) IN
         [] OTHER -> TRUE
 C05trimkeeps == LET R == Run(srcs, prog, {"trim"}) IN
    \A i \in DOMAIN srcs : srcs[i].def =>
-      \A p \in OnSite(R, i) : HoldsStmt(StmtAt(p), srcs[i]) => HoldsStmt(StmtAt(p), R.srcs[i])
+      /\ \A p \in OnSite(R, i) : HoldsStmt(StmtAt(p), srcs[i]) => HoldsStmt(StmtAt(p), R.srcs[i])
+      \* a key that was accessed is not slack, also when its value was never used in an operation
+      /\ ops[i] = "dict" => \A j \in DOMAIN srcs[i].e : Accessed(R, i, srcs[i].e[j].k) => HasKey(R.srcs[i].e, srcs[i].e[j].k)
 \* nothing approved: nothing changes
 C04inert == Run(srcs, prog, {}).srcs = srcs
 (* C08 *)
